@@ -165,3 +165,124 @@ def c10_crash(e):
     if kind == 0 and where == 0:
         must_raise = True
     return restored and not c._render_hooks and scr.cursor_visible and (raised or not must_raise)
+
+
+# --- Progress: frames that grow and shrink (tasks added, hidden, removed) ---------------------------------------------------
+from rich.progress import TextColumn  # noqa: E402
+
+
+def _mk_progress(nops, tiers, timeout):
+    @symx("C10-progress-history-%dops" % nops, tiers=tiers, timeout=timeout, kind="P",
+          functions=F_L + ["rich/progress.py:Progress.start", "rich/progress.py:Progress.stop", "rich/progress.py:Progress.refresh",
+                           "rich/progress.py:Progress.process_renderables", "rich/progress.py:Progress.add_task",
+                           "rich/progress.py:Progress.remove_task", "rich/progress.py:Progress.update"],
+          bounds="Progress (one text column, no refresh thread) on a 30x8 terminal x transient x every history of %d operations from "
+                 "{print, add_task, hide the newest visible task, show it again, remove the oldest task, advance, refresh} then stop "
+                 "(solver-enumerated, native, replayed on the screen model): printed lines intact and in order, followed by one line "
+                 "per visible task (nothing if transient); no cursor-up leaves the screen; cursor visible again" % nops,
+          outside="refresh threads; more than %d operations; more tasks than fit the screen" % nops)
+    def h(e):
+        transient = bool(e.mkbool("transient"))
+        c = Console(file=io.StringIO(), force_terminal=True, width=30, height=8, color_system=None, legacy_windows=False,
+                    _environ={})
+        out0, err0 = sys.stdout, sys.stderr
+        printed = []
+        p = Progress(TextColumn("{task.description}"), console=c, auto_refresh=False, transient=transient)
+        tasks = []          # (task id, description, visible)
+        p.start()
+        try:
+            tasks.append([p.add_task("t0"), "t0", True])
+            for i in range(nops):
+                op = int(e.mk("op%d" % i, 0, 6))
+                if op == 0:
+                    c.print("p%d" % i)
+                    printed.append("p%d" % i)
+                elif op == 1:
+                    tasks.append([p.add_task("t%d" % (i + 1)), "t%d" % (i + 1), True])
+                elif op == 2:
+                    vis = [t for t in tasks if t[2]]
+                    if vis:
+                        vis[-1][2] = False
+                        p.update(vis[-1][0], visible=False)
+                elif op == 3:
+                    hid = [t for t in tasks if not t[2]]
+                    if hid:
+                        hid[0][2] = True
+                        p.update(hid[0][0], visible=True)
+                elif op == 4:
+                    if tasks:
+                        p.remove_task(tasks[0][0])
+                        tasks.pop(0)
+                elif op == 5:
+                    if tasks:
+                        p.advance(tasks[-1][0])
+                else:
+                    p.refresh()
+        finally:
+            p.stop()
+        ok = sys.stdout is out0 and sys.stderr is err0 and not c._render_hooks
+        sys.stdout, sys.stderr = out0, err0
+        scr = Screen(8)
+        scr.feed(c.file.getvalue())
+        if not ok or not scr.cursor_visible or scr.hit_top:
+            return False
+        want = list(printed) + ([] if transient else [t[1] for t in tasks if t[2]])
+        return scr.lines() == want
+    return h
+
+
+_mk_progress(3, ("quick", "thorough"), 900)
+_mk_progress(4, ("thorough",), 3400)
+
+
+# --- an exception at every render index of a fixed history: printed lines must survive ----------------------------------
+class _ExplodeAt:
+    def __init__(self, at, height):
+        self.at, self.count, self.height = at, 0, height
+
+    def __rich_console__(self, console, options):
+        self.count += 1
+        if self.count == self.at:
+            raise Boom()
+        for i in range(self.height):
+            yield Text("fr%d" % i)
+
+
+@symx("C10-exception-at-render-index", timeout=900, kind="P", functions=F_L + ["rich/console.py:Console.log"],
+      bounds="Live (frame of 1..4 lines, no refresh thread, 20x10 terminal) running [refresh, print, log, print, refresh, log] with the "
+             "frame's renderable raising at its i-th render for every i in 1..9 x transient: the exception propagates, cursor / "
+             "redirection / hooks are restored, and every line printed before the exception is still on the screen, in order, "
+             "without any cursor-up leaving the screen")
+def c10_exc_index(e):
+    at = int(e.mk("at", 1, 9))
+    height = int(e.mk("frame_height", 1, 4))
+    transient = bool(e.mkbool("transient"))
+    c = Console(file=io.StringIO(), force_terminal=True, width=20, height=10, color_system=None, legacy_windows=False,
+                log_time=False, log_path=False, _environ={})
+    out0, err0 = sys.stdout, sys.stderr
+    printed = []
+    raised = False
+    try:
+        with Live(_ExplodeAt(at, height), console=c, auto_refresh=False, transient=transient) as live:
+            live.refresh()
+            c.print("p1")
+            printed.append("p1")
+            c.log("l2")
+            printed.append("l2")
+            c.print("p3")
+            printed.append("p3")
+            live.refresh()
+            c.log("l4")
+            printed.append("l4")
+    except Boom:
+        raised = True
+    finally:
+        restored = sys.stdout is out0 and sys.stderr is err0
+        sys.stdout, sys.stderr = out0, err0
+    scr = Screen(10)
+    scr.feed(c.file.getvalue())
+    if not restored or c._render_hooks or not scr.cursor_visible or scr.hit_top:
+        return False
+    got = scr.lines()
+    # the lines that were completely printed (their operation returned) must still be there, in order, at the top
+    return got[:len(printed)] == printed
